@@ -275,7 +275,7 @@ func plan(run *vk.Run) []batchArgs {
 	var safe, random []job
 	n := 0
 	next := func() int { n++; return n }
-	rounds := run.Pick(2, 40)
+	rounds := run.Pick(2, 60)
 	for round := 0; round < rounds; round++ {
 		for _, k := range kinds {
 			for _, ps := range permSets() {
@@ -286,22 +286,22 @@ func plan(run *vk.Run) []batchArgs {
 			}
 		}
 	}
-	for i := 0; i < run.Pick(60, 4000); i++ {
+	for i := 0; i < run.Pick(60, 6000); i++ {
 		safe = append(safe, job{T: "deleg", I: next()})
 	}
-	for i := 0; i < run.Pick(40, 2000); i++ {
+	for i := 0; i < run.Pick(40, 3000); i++ {
 		safe = append(safe, job{T: "xgroup", I: next()})
 	}
-	for i := 0; i < run.Pick(90, 6000); i++ {
+	for i := 0; i < run.Pick(90, 10000); i++ {
 		safe = append(safe, job{T: "revoke", I: next()})
 	}
-	for i := 0; i < run.Pick(60, 6000); i++ {
+	for i := 0; i < run.Pick(60, 10000); i++ {
 		safe = append(safe, job{T: "race", I: next()})
 	}
-	for i := 0; i < run.Pick(40, 2400); i++ {
+	for i := 0; i < run.Pick(40, 4000); i++ {
 		safe = append(safe, job{T: "whip", I: next()})
 	}
-	for i := 0; i < run.Pick(1500, 150000); i++ {
+	for i := 0; i < run.Pick(1500, 300000); i++ {
 		random = append(random, job{T: "random", I: next(), Len: 15})
 	}
 
